@@ -101,8 +101,7 @@ def _model_job(job) -> List[Dict[str, Any]]:
             continue
         I = oc.I
         if ctor_fields is None:
-            ctor_fields = set(oc.world.state.heap[oc.world.model.loc].obj.names()) if oc.world.model.loc in oc.world.state.heap else set()
-            ctor_fields = set(n for n in ctor_fields)
+            ctor_fields = set(getattr(oc.world, "ctor_fields", set()))
         for u in oc.undecided:
             out.append(dict(rule="R14.1", verdict="UNDECIDED", module=roles.model.module.name, function=entry, construct=u[:120], line=0, message=u, detail={"case": kw}))
         for ev in I.events:
